@@ -391,9 +391,12 @@ class SafeLearner(Learner):
         #it allows us to "is" checks to see if a returned value "is" one of the actions
         if self._prev_actions != actions:
             self._prev_actions = actions
-            all_safe = 0 not in actions and 1 not in actions
             make_safe = lambda a: float(a) if a in [0,1] else a
-            self._safe_actions = actions if all_safe else [ make_safe(a) for a in actions]
+            safe_list = lambda A: A if (0 not in A and 1 not in A) else [ make_safe(a) for a in A]
+            try:
+                self._safe_actions = type(actions)(map(safe_list,actions)) if is_batch(actions) else safe_list(actions)
+            except Exception:
+                self._safe_actions = actions
 
         pred = self._safe_call('predict', self.learner.predict, (context,self._safe_actions))
         return self._parse_pred(context, self._safe_actions, pred)
